@@ -28,3 +28,5 @@ func IsSymbolic() bool
 func Yield()
 func Ite64(c bool, a, b uint64) uint64
 func HexString(n int, limbs ...uint64) string
+func Show(tag string, x uint64)
+func ShowUFDiff(tag string, x uint64)
